@@ -19,7 +19,7 @@ class _Delegated:
         self.node, self.fields, self.re_expr, self.swallowed, self.inner = node, fields, re_expr, swallowed, inner
 
 
-_deleg: Dict[int, _Delegated] = {}
+_deleg: Dict[int, List[_Delegated]] = {}
 
 
 def _own_gathers(ctx: Ctx, f: FuncInfo) -> List[Node]:
@@ -82,20 +82,26 @@ def gathers(ctx: Ctx, f: FuncInfo, _depth: int = 0) -> List[Node]:
                         if lab[0] == "x" and s2.op in ("suppressed", "handler") and hg.exit in reach([s2], lambda a_, b_, l_: l_[0] in NORMAL_KINDS):
                             sw = True
                 d = _Delegated(n, flds, re_, sw, ig)
-                _deleg[id(n)] = d
+                lst = _deleg.setdefault(id(n), [])
+                if not any(x.inner.ast is ig.ast for x in lst):
+                    lst.append(d)
                 out.append(n)
     return ctx.distinct_sites(out)
 
 
 def gather_fields(ctx: Ctx, f: FuncInfo, g: Node) -> Set[str]:
     if id(g) in _deleg and not ctx.is_ext_await(g, *GATHER):
-        return set(_deleg[id(g)].fields)
+        return set().union(*[d.fields for d in _deleg[id(g)]])
     return _own_fields(ctx, f, g)
 
 
 def gather_re(ctx: Ctx, f: FuncInfo, g: Node):
     if id(g) in _deleg and not ctx.is_ext_await(g, *GATHER):
-        return _deleg[id(g)].re_expr
+        res = [d.re_expr for d in _deleg[id(g)]]
+        for r in res:
+            if not literal_true(r):
+                return r
+        return res[0] if res else None
     call = strip_cast(g.ast.value)
     for k in call.keywords:
         if k.arg == "return_exceptions":
@@ -185,8 +191,10 @@ def r_gather_complete(ctx: Ctx, rule: str, funcs=("gather_and_close",)):
                 re_ = gather_re(ctx, f, x)
                 # (a) swallowed early completion
                 swallowed = []
-                if id(x) in _deleg and not ctx.is_ext_await(x, *GATHER) and _deleg[id(x)].swallowed:
-                    swallowed.append((_deleg[id(x)].inner, ("x", (CANCELLED, True))))
+                if id(x) in _deleg and not ctx.is_ext_await(x, *GATHER):
+                    for d in _deleg[id(x)]:
+                        if d.swallowed and (name != "flush" or d.fields & TASK_FIELDS):
+                            swallowed.append((d.inner, ("x", (CANCELLED, True))))
                 for n in _copies(g, [x]):
                     for s, lab in n.succ:
                         if lab[0] == "x" and s.op in ("suppressed", "handler"):
@@ -218,7 +226,7 @@ def r_return_exceptions(ctx: Ctx, rule: str, funcs=("flush", "gather_and_close")
             for x in gathers(ctx, f):
                 flds = gather_fields(ctx, f, x)
                 re_ = gather_re(ctx, f, x)
-                n_g += 1
+                n_g += len(_deleg[id(x)]) if (id(x) in _deleg and not ctx.is_ext_await(x, *GATHER)) else 1
                 role = expr_role(ctx, f, re_)
                 ok = literal_true(re_) or role == "RETEXC"
                 if flds & TASK_FIELDS:
